@@ -31,7 +31,7 @@ EvScan ==
          oneRecord == Len(e.declared) = 1 /\ Len(e.lens) = 1
          vs == If(e.outcome \in {"panic", "hang"}, {<<"total", e.outcome>>})
                \cup If(e.outcome = "values" /\ e.lens # e.reported, {<<"len-vs-bytes", "-">>})
-               \cup If(e.outcome = "values" /\ genbank /\ oneRecord /\ e.lens[1] # e.declared[1] /\ e.seed = "s1", {<<"short-read", "-">>})
+               \cup If(e.outcome = "values" /\ genbank /\ oneRecord /\ e.lens[1] # e.declared[1] /\ e.seed = "s1" /\ ~ContigOnly(ls), {<<"short-read", "-">>})
                \cup UNION {If(e.outcome = "values", {<<"strict", c>>}) : c \in inc}
                \cup If(truncated /\ e.outcome = "values", {<<"strict", "truncated">>})
          tag(v) == IF v[1] = "strict" /\ v[2] = "indent" /\ "LenientLines" \in Devs THEN "dev:LenientLines" ELSE "-"
